@@ -57,6 +57,11 @@ fn kind_name(rs: &RS) -> String {
         RS::CreateNodes { px: Some(p), .. } => format!("create:{:?}", p.kind),
         RS::SetProp { px: Some(p), .. } => format!("set:{:?}", p.kind),
         RS::SetProp { then_delete: true, .. } => "set-then-refused-delete".into(),
+        RS::MutThenDelete { mutation, .. } => format!("{}-then-refused-delete", match mutation {
+            cyw::Mut::RemoveProp(_) => "remove-prop",
+            cyw::Mut::AddLabel(_) => "add-label",
+            cyw::Mut::RemoveLabel(_) => "remove-label",
+        }),
         RS::Merge { px: Some(p), .. } => format!("merge:{:?}", p.kind),
         RS::Delete { .. } => "refused-delete".into(),
         RS::CreateThenDelete { .. } => "create-then-delete".into(),
@@ -69,7 +74,7 @@ fn kind_name(rs: &RS) -> String {
 fn partial_writes(rs: &RS, at: Option<usize>) -> bool {
     match rs {
         RS::CreateNodes { px: Some(_), .. } | RS::SetProp { px: Some(_), .. } | RS::Merge { px: Some(_), .. } => at.is_some_and(|a| a >= 1),
-        RS::SetProp { then_delete: true, .. } | RS::CreateThenDelete { .. } | RS::LinkThenDelete { .. } => true,
+        RS::SetProp { then_delete: true, .. } | RS::MutThenDelete { .. } | RS::CreateThenDelete { .. } | RS::LinkThenDelete { .. } => true,
         _ => false,
     }
 }
@@ -77,7 +82,7 @@ fn partial_writes(rs: &RS, at: Option<usize>) -> bool {
 pub fn run(ctx: &mut RunCtx) {
     ctx.assume("label and relationship-type names interned by a failed statement are not logical content (they are invisible to every read interface of the dump)");
     ctx.assume("inside the explicit transaction the model applies the valid statements with sequential visibility (C24)");
-    let cases = ctx.tier.pick(60_000, 1_000_000);
+    let cases = ctx.tier.pick(60_000, 3_000_000);
     let test = |c: &Case, obs: &mut Obs| {
         let mut w = World::new()?;
         let none: BTreeSet<u32> = BTreeSet::new();
